@@ -65,6 +65,7 @@ EL = z3.Function("xml_iter_elem", XmlT, I, XmlT)
 TAG = z3.Function("xml_tag", XmlT, S)                         # Clark notation {namespace}local
 RAWHAS = z3.Function("raw_bytes_contain", Blob, S, B)          # the member's RAW bytes contain the byte string (rendered latin-1)
 ASCII_COMPAT = z3.Function("xml_encoding_is_ascii_compatible", Blob, B)   # the document is serialised in UTF-8 / ISO-8859-x / ... (not UTF-16/32)
+BLEN = z3.Function("raw_bytes_len", Blob, I)                   # number of raw bytes of the member (a well-formed XML document is not empty)
 AFTER_LAST = z3.Function("text_after_last", S, S, S)          # the part of s after the last occurrence of sep (all of s if none)
 
 
@@ -817,6 +818,13 @@ class C08Executor(readfile.ReadFileExecutor):
 
     def _grown_list(self, st, v):
         return hasattr(v, "ref") and st.obj(v.ref).kind == "unk" and st.ghost.get(("growing", v.ref))
+
+    def b_len(self, st, args, kwargs, node):
+        if len(args) == 1 and isinstance(args[0], VExt) and args[0].sort == "Blob":
+            t = BLEN(args[0].t)
+            st.assume(z3.And(t >= 0, z3.Implies(XMLOK(args[0].t), t > 0)))
+            return [(st, VInt(t))]
+        return super().b_len(st, args, kwargs, node)
 
     def b_int(self, st, args, kwargs, node):
         if len(args) == 1 and isinstance(args[0], VExt) and args[0].sort == "PdfObj":
